@@ -46,6 +46,11 @@ type lOp struct {
 	Q int `json:"q,omitempty"`
 	// amounts are written in 6-decimals units of uatom-like value; an amount of aweth is scaled by lWethScale unless Raw (dust)
 	Raw bool `json:"raw,omitempty"`
+	// close-positions messages that name a position MORE THAN ONCE (0: every id once, as before). 1: the observed position twice in a
+	// row, 2: again at the other end of the list, 5: the whole list twice in the same list; in ANOTHER list of the same message
+	// (liquidate -> stop loss -> take profit -> liquidate; leveragelp has two lists): 3 the observed position / 4 the whole list also in
+	// the next list, 6 the observed position / 7 the whole list also in the list after the next
+	Dup int `json:"dup,omitempty"`
 }
 
 type lHist struct {
@@ -327,6 +332,19 @@ func lGenN(r *Rng, id int, n int) lHist {
 				h.Ops = append(h.Ops, lOp{Op: "feed_ext", U: u, Dir: int(b.N), Rel: int(b.DT % 7), Q: int(b.N) % 2},
 					lOp{Op: "feed_ext", U: u, Dir: int(b.N) + 1, Rel: int(b.DT%7) + 1, Q: (int(b.N) + 1) % 2})
 			}
+			// in the same way (pairs, built from the numbers already drawn, no block of their own):
+			switch x {
+			case 96:
+				// governance executes a stablestake params proposal drafted from the params as they were when the history started (Dir 1) / with
+				// TotalValue left zero (2) / from the current params (3); somebody transfers coins to the account of a leveraged-LP position
+				h.Ops = append(h.Ops, lOp{Op: "ss_params", U: u, Dir: 1 + int(b.DT%3)},
+					lOp{Op: "pos_donate", U: u, Idx: int(b.N), Rel: int(b.DT % 4), Pool: int(b.N) % 3, N: b.DT % 2, Amt: fmt.Sprint(b.DT*1000 + 7)})
+			case 95:
+				// close-positions messages of both modules that name a position more than once (one list / several lists)
+				dup := 1 + (int(b.N)+int(b.DT%7))%7
+				h.Ops = append(h.Ops, lOp{Op: "lev_close_positions", U: u, Idx: int(b.N), Dir: int(b.DT % 2), N: b.N + 1, Rel: int(b.N) % 2, Dup: dup},
+					lOp{Op: "perp_close_positions", U: u, Idx: int(b.N) + 1, Dir: int(b.DT % 3), N: b.N + 1, Rel: int(b.N+1) % 2, Dup: 1 + dup%7})
+			}
 		}
 	}
 	return h
@@ -364,6 +382,8 @@ type lRun struct {
 	c06   *c06Tracer
 	c09b  *c09bTracer // C09 custody backing (harness/c09b_trace_test.go)
 	c09b2 *c09bTracer // the same for the second perpetual pool (two-pool markets)
+	// op ss_params: the stablestake params as a proposer read them earlier (Params query: TotalValue comes with the governance-set fields)
+	ssSnap *sstypes.Params
 }
 
 // count adds to a counter of the run's report (evidence "extra")
@@ -709,6 +729,66 @@ func (x *lRun) exec(op lOp) (res TxResult, amt *big.Int) {
 	case "c09_exit_to": // C09 only (harness/c09b_trace_test.go)
 		r, v := c09bExitTo(x, op)
 		return r, v.BigInt()
+	case "pos_donate":
+		// a plain bank transfer to the ACCOUNT OF A LEVERAGED-LP POSITION (every position has its own address: collateral and exit proceeds
+		// pass through it, its pool shares are committed there), from its owner (N 0) or from somebody else. With the debt in base currency
+		// lying there (Rel 0) a forced close of a position that is under water fails AFTER the pool exit and the repayment
+		// (ErrNegUserAmountAfterRepay). Perpetual MTPs have no account of their own (GetAccountAddress is the owner).
+		ps := w.App.LeveragelpKeeper.GetAllPositions(w.QCtx())
+		if len(ps) == 0 {
+			return TxResult{Err: fmt.Errorf("skip")}, nil
+		}
+		p := ps[op.Idx%len(ps)]
+		sender := p.Address
+		if op.N != 0 {
+			sender = u
+		}
+		d := []string{USDC, x.tradeOfPool(p.AmmPoolId), ELYS}[op.Pool%3]
+		owed := w.App.StablestakeKeeper.UpdateInterestAndGetDebt(w.QCtx(), p.GetPositionAddress()).GetTotalLiablities()
+		v := sdkmath.OneInt()
+		switch op.Rel {
+		case 0:
+			v = owed
+		case 1:
+			v = x.amtOf(op, d)
+		case 2:
+			v = owed.QuoRaw(2)
+		}
+		if !v.IsPositive() {
+			v = sdkmath.OneInt()
+		}
+		amt = v.BigInt()
+		return w.Deliver(&banktypes.MsgSend{FromAddress: sender, ToAddress: p.GetPositionAddress().String(), Amount: sdk.NewCoins(sdk.NewCoin(d, v))}), amt
+	case "ss_params":
+		// stablestake MsgUpdateParams. Dir 0: a proposer READS the params (no transaction) and keeps the answer; Dir 1: governance executes
+		// the proposal drafted from the kept answer - every field as it was THEN, TotalValue included, InterestRateMax raised; Dir 2: drafted
+		// from the params as they are now with TotalValue left zero; Dir 3: the params as they are now; Dir 4: Dir 1 sent by a user
+		// (refused). The vault's TotalValue is the chain's own book-keeping: no such message may move it.
+		cur := w.App.StablestakeKeeper.GetParams(w.QCtx())
+		if op.Dir == 0 || x.ssSnap == nil {
+			snap := cur
+			x.ssSnap = &snap
+			if op.Dir == 0 {
+				return TxResult{}, nil
+			}
+		}
+		pp := *x.ssSnap
+		switch op.Dir {
+		case 2:
+			pp = cur
+			pp.TotalValue = sdkmath.ZeroInt()
+		case 3:
+			pp = cur
+		}
+		pp.InterestRateMax = cur.InterestRateMax.Add(dec("0.01"))
+		auth := w.Gov
+		if op.Dir == 4 {
+			auth = u
+		}
+		if !pp.TotalValue.Equal(cur.TotalValue) && !pp.TotalValue.IsZero() {
+			x.count("ss_params_carrying_a_stale_total_value", 1)
+		}
+		return w.Deliver(&sstypes.MsgUpdateParams{Authority: auth, Params: &pp}), nil
 	case "donate":
 		pool, _ := w.App.AmmKeeper.GetPool(w.QCtx(), x.poolOf(op))
 		a, b := x.denomsOf(op)
@@ -926,21 +1006,42 @@ func (x *lRun) closePositions(op lOp) (res TxResult) {
 		if mixed {
 			x.count("lev_batches_listing_both_pools", 1)
 		}
+		// repeated ids (op.Dup): the observed position (or every position) is named more than once, in one list or in both
+		var other []*levtypes.PositionRequest
+		switch op.Dup {
+		case 1, 2:
+			if (op.Dup == 1) == (op.Rel == 1) {
+				reqs = append(reqs, req)
+			} else {
+				reqs = append([]*levtypes.PositionRequest{req}, reqs...)
+			}
+		case 3, 6:
+			other = []*levtypes.PositionRequest{req}
+		case 4, 7:
+			other = append([]*levtypes.PositionRequest{}, reqs...)
+		case 5:
+			reqs = append(reqs, reqs...)
+		}
+		if op.Dup != 0 {
+			x.count("lev_batches_repeating_an_id", 1)
+		}
 		msg := &levtypes.MsgClosePositions{Creator: u}
 		if op.Dir == 0 {
-			msg.Liquidate = reqs
+			msg.Liquidate, msg.StopLoss = reqs, other
 		} else {
-			msg.StopLoss = reqs
+			msg.StopLoss, msg.Liquidate = reqs, other
 		}
 		res = w.Deliver(msg)
 		after, err2 := w.App.LeveragelpKeeper.GetPosition(w.QCtx(), owner, p.Id)
 		changed := err2 != nil || !after.LeveragedLpAmount.Equal(before.lp) || !after.Collateral.Amount.Equal(before.collateral)
 		if changed && !before.healthErr && lpErr == nil {
+			liqOK := before.health.LTE(sf)
+			slOK := !before.stopLoss.IsNil() && lpPrice.LTE(before.stopLoss)
 			allowed := false
 			if op.Dir == 0 {
-				allowed = before.health.LTE(sf)
+				allowed = liqOK || (len(other) > 0 && slOK)
 			} else {
-				allowed = !before.stopLoss.IsNil() && lpPrice.LTE(before.stopLoss)
+				allowed = slOK || (len(other) > 0 && liqOK)
 			}
 			if !allowed {
 				x.fail("C10:levlp-forced-close-without-guard", fmt.Sprintf("position %s/%d changed by %s (dir %d) with health %s > safety factor %s, lp price %s stop loss %s",
@@ -1019,15 +1120,32 @@ func (x *lRun) closePositions(op lOp) (res TxResult) {
 	if mixed {
 		x.count("perp_batches_listing_both_pools", 1)
 	}
-	msg := &perptypes.MsgClosePositions{Creator: u}
-	switch op.Dir {
-	case 0:
-		msg.Liquidate = reqs
-	case 1:
-		msg.StopLoss = reqs
-	default:
-		msg.TakeProfit = reqs
+	// the three lists of the message (0 liquidate, 1 stop loss, 2 take profit); repeated ids (op.Dup): the observed position (or every
+	// position) is named more than once, in one list or in several
+	kind := op.Dir
+	if kind < 0 || kind > 2 {
+		kind = 2
 	}
+	var lists [3][]perptypes.PositionRequest
+	switch op.Dup {
+	case 1, 2:
+		if (op.Dup == 1) == (op.Rel == 1) {
+			reqs = append(reqs, req)
+		} else {
+			reqs = append([]perptypes.PositionRequest{req}, reqs...)
+		}
+	case 3, 6:
+		lists[(kind+op.Dup/3)%3] = []perptypes.PositionRequest{req}
+	case 4, 7:
+		lists[(kind+op.Dup/3)%3] = append([]perptypes.PositionRequest{}, reqs...)
+	case 5:
+		reqs = append(reqs, reqs...)
+	}
+	if op.Dup != 0 {
+		x.count("perp_batches_repeating_an_id", 1)
+	}
+	lists[kind] = reqs
+	msg := &perptypes.MsgClosePositions{Creator: u, Liquidate: lists[0], StopLoss: lists[1], TakeProfit: lists[2]}
 	res = w.Deliver(msg)
 	after, err2 := w.App.PerpetualKeeper.GetMTP(w.QCtx(), owner, p.Id)
 	closed := err2 != nil
@@ -1037,23 +1155,28 @@ func (x *lRun) closePositions(op lOp) (res TxResult) {
 	sizeChanged := closed || after.Custody.LT(mtp.Custody.Sub(mtp.Custody.QuoRaw(1000)).SubRaw(2)) // beyond interest/funding taken from custody
 	if sizeChanged && settleErr == nil && herr == nil && perr == nil {
 		allowed := false
-		switch op.Dir {
-		case 0:
-			allowed = hl.LTE(sf)
-		case 1:
-			if !p.StopLossPrice.IsNil() {
-				if p.Position == perptypes.Position_LONG {
-					allowed = price.LTE(p.StopLossPrice)
-				} else {
-					allowed = price.GTE(p.StopLossPrice)
-				}
+		for k := range lists { // the guard of ANY list that names the position
+			if len(lists[k]) == 0 {
+				continue
 			}
-		default:
-			if !p.TakeProfitPrice.IsNil() {
-				if p.Position == perptypes.Position_LONG {
-					allowed = price.GTE(p.TakeProfitPrice)
-				} else {
-					allowed = price.LTE(p.TakeProfitPrice)
+			switch k {
+			case 0:
+				allowed = allowed || hl.LTE(sf)
+			case 1:
+				if !p.StopLossPrice.IsNil() {
+					if p.Position == perptypes.Position_LONG {
+						allowed = allowed || price.LTE(p.StopLossPrice)
+					} else {
+						allowed = allowed || price.GTE(p.StopLossPrice)
+					}
+				}
+			default:
+				if !p.TakeProfitPrice.IsNil() {
+					if p.Position == perptypes.Position_LONG {
+						allowed = allowed || price.GTE(p.TakeProfitPrice)
+					} else {
+						allowed = allowed || price.LTE(p.TakeProfitPrice)
+					}
 				}
 			}
 		}
@@ -1316,6 +1439,10 @@ func runLedgerHistory(t *testing.T, col *Collector, prop string, h lHist) {
 	if !x.block(5) {
 		return
 	}
+	{ // the params a proposer reads before the history starts (op ss_params)
+		snap := w.App.StablestakeKeeper.GetParams(w.QCtx())
+		x.ssSnap = &snap
+	}
 	if prop == "C01" {
 		x.c01 = newC01Tracer(x)
 	}
@@ -1409,7 +1536,7 @@ func runLedgerHistory(t *testing.T, col *Collector, prop string, h lHist) {
 			x.nontriv = true
 		}
 		x.invariants(fmt.Sprintf("after tx %d (%s %s)", k, op.Op, res.Kind()))
-		if k%2 == 1 && op.Op != "feed_ext" {
+		if k%2 == 1 && !lNoBlockAfter(op) {
 			if !x.block(5) {
 				return
 			}
@@ -1471,6 +1598,12 @@ func runLedgerHistory(t *testing.T, col *Collector, prop string, h lHist) {
 	col.Sample(h)
 }
 
+// lNoBlockAfter: ops the generator appends in parity-neutral PAIRS to the op a draw stood for (the driver closes a block after every
+// op with an odd index); exempt from that rule so that every other op of a stored seed stays in the block it was in
+func lNoBlockAfter(op lOp) bool {
+	return op.Op == "feed_ext" || op.Op == "pos_donate" || op.Op == "ss_params" || op.Dup != 0
+}
+
 func firstLines(s string, n int) string {
 	ls := strings.Split(s, "\n")
 	if len(ls) > n {
@@ -1506,6 +1639,12 @@ func runLedger(t *testing.T, prop string) {
 			}
 			hists = append(hists, h)
 		}
+		// third batch of directed histories (harness/ledger3_test.go), after the others so that those keep their indices
+		ne := 12
+		if tier() == "thorough" {
+			ne = 160
+		}
+		hists = append(hists, lExtras3(seed, len(hists), int(envInt("VERIF_NEXTRA", int64(ne))))...)
 	}
 	RunParallel(len(hists), func(i int) {
 		h := hists[i]
@@ -1631,14 +1770,18 @@ func TestLedgerAll(t *testing.T) { // harness self-test: every predicate, all pr
 	seed := envInt("VERIF_SEED", 1)
 	col := NewCollector("LedgerAll", seed)
 	n := int(envInt("VERIF_N", 48))
-	RunParallel(n, func(i int) {
-		h := lGen(NewRng(uint64(seed), uint64(i)), i)
-		for _, p := range []string{"C01", "C02", "C06", "C08", "C09", "C10", "C11", "C15", "C18"} {
-			_ = p
+	extras := lExtras3(seed, n, int(envInt("VERIF_NEXTRA", 12)))
+	RunParallel(n+len(extras), func(i int) {
+		var h lHist
+		if i < n {
+			h = lGen(NewRng(uint64(seed), uint64(i)), i)
+		} else {
+			h = extras[i-n]
+			h.ID = i
 		}
 		runLedgerHistoryAll(t, col, h)
 	})
-	col.Finish(t, n, "", "", 300)
+	col.Finish(t, n+len(extras), "", "", 300)
 }
 
 func runLedgerHistoryAll(t *testing.T, col *Collector, h lHist) {
